@@ -21,6 +21,9 @@ Atoms == IF Wide
                 Coll(Id0("c"), "any", None), Call(Id0("now"), <<>>), Lst(<<Lst(<<one>>), a>>) }
          ELSE { a, one, Attr(a, "p") }
 Brackets == { Call(Id0("concat"), <<E, E>>), Call(Id(<<"f">>, "g"), <<Named(Id0("k"), E), Named(Id0("m"), one)>>),
+              \* built-in functions called with named parameters (the back-ends split positional from named arguments)
+              Call(Id0("contains"), <<Named(Id0("field"), E), Named(Id0("substr"), StrL(<<115>>))>>),
+              Call(Id0("substring"), <<E, Named(Id0("index"), one)>>),
               Lst(<<E>>), Lst(<<one, E, Lst(<<E>>)>>),
               Coll(Id0("c"), "any", Lam(Id0("x"), E)), Coll(Attr(a, "q"), "all", Lam(Id0("x"), E)) }
 OpsUsed == IF Wide THEN {"or", "eq", "add"} ELSE {"and", "lt", "ne", "sub", "mod"}
